@@ -445,17 +445,24 @@ def _large_one(variant):
     import vlib
     vlib.use_repo_source()
     filler, off = variant
-    text = ("function(cmd_a)\nendfunction()\n#" + "x" * off + filler * 36000 + "\n#[[[\n# Large file doc.\n#]]\n"
-            f'cmd_a(a{off} "{filler * 3} b" [[c]] ({filler}))\n')
+    # the multi-byte characters that straddle the block boundaries (8 KiB, 64 KiB, ...) sit inside a comment, inside the
+    # doccomment and inside an argument: none of them may be lost or replaced
+    big = "x" * off + filler * 30000
+    text = ("function(cmd_a)\nendfunction()\n#" + "x" * off + filler * 3000 + f"\n#[[[\n# Large file doc {filler * 2000}.\n#]]\n"
+            f'cmd_a(a{off} "{big} b" [[c]] ({filler}))\n')
     run = document_text(text, real_settings(), name=f"large-{os.getpid()}.cmake")
     fails = []
     if run.exc is not None:
         fails.append(("large-file:" + exc_key(run.exc), f"{len(text.encode('utf-8'))} bytes, filler {filler!r} offset {off}: {run.exc!r}"[:300]))
     else:
         docs = [d for d in (run.documented or []) if type(d).__name__ == "GenericCommandDocumentation"]
-        want = [f"a{off}", f'"{filler * 3} b"', "[[c]]", f"({filler})"]
+        want = [f"a{off}", f'"{big} b"', "[[c]]", f"({filler})"]
         if len(docs) != 1 or list(docs[0].params) != want:
-            fails.append(("large-file:arguments", f"expected {want!r} got {[list(d.params) for d in docs]!r}"[:300]))
+            got = [list(d.params) for d in docs]
+            fails.append(("large-file:arguments", f"arguments differ (lengths expected {[len(w) for w in want]} got "
+                                                  f"{[[len(x) for x in g] for g in got]})"[:300]))
+        elif f"Large file doc {filler * 2000}." not in (run.text or ""):
+            fails.append(("large-file:doc-text", "the doccomment line with 2000 multi-byte characters did not reach the output unchanged"))
     return variant, fails
 
 
